@@ -189,6 +189,7 @@ structure Sp where
   done : List Nat := []         -- finish notifications processed (rolled back by a restore)
   log : List Nat := []          -- shards handed out since the last (re)start
   tainted : Bool := false       -- a restore lost withheld shards (D16c)
+  wild : Bool := false          -- a finish notification named a shard that was not assigned (no reader does that)
 deriving Repr
 
 /-- one `hooks.AssignSplits` call: (runner index, shard, cursor) -/
@@ -213,7 +214,8 @@ def assignAvail (s : Sp) : Sp × List Call :=
 
 /-- `NotifySplitsFinished`: `RemoveSplits` -/
 def remove (s : Sp) (ids : List Nat) : Sp :=
-  { s with tr := removeSplits s.tr ids, done := s.done ++ ids }
+  { s with tr := removeSplits s.tr ids, done := s.done ++ ids,
+           wild := s.wild || ids.any (fun i => !s.tr.assigned.contains i) }
 
 def isAssigned (t : Tr) (sh : Shard) : Bool := t.assigned.contains sh.id
 
